@@ -476,6 +476,10 @@ class _RecLoggerMixin:
         self._deliver(log)
 
     def process_market_step_end_log(self, log):
+        # every market's clock at each step-end record as well (the step is closed for all markets before any
+        # clock moves)
+        REC.add("snap.end", log.market.market_id, log.session.session_id,
+                [(m.market_id, m.get_time(), m.is_running) for m in log.simulator.markets])
         self._deliver(log)
         import contextlib
         import io
